@@ -29,7 +29,19 @@ Definition ports_ok (req_sport req_dport : N) (req_payload : bytes)
    then r_sport =? wrap16 (req_dport + 1)
    else r_sport =? req_dport).
 
-Definition ok_C03 (cfg : config) (f : bytes) (r : option bytes) : bool :=
+(* TCP: the handler of a flow is given the segment that completes a protocol signature
+   joined to the bytes the flow sent before (proto::repl keeps them, bounded), so whether a
+   STUN request carries the change-port bit cannot be read off the answered segment alone.
+   The reading that does not depend on the state of the flow: the reply leaves from the
+   port that was contacted, or, when it is a STUN success response, from the next port. *)
+Definition ports_ok_tcp (req_sport req_dport : N)
+                        (r_sport r_dport : N) (r_payload : bytes) : bool :=
+  (r_dport =? req_sport) &&
+  ((r_sport =? req_dport) || (is_stun_success r_payload && (r_sport =? wrap16 (req_dport + 1)))).
+
+(* [strict]: read the TCP ports against the answered segment alone, as for UDP (exact for
+   flows that have no bytes pending) *)
+Definition ok_C03_gen (strict : bool) (cfg : config) (f : bytes) (r : option bytes) : bool :=
   match r with
   | None => true
   | Some rf =>
@@ -52,8 +64,12 @@ Definition ok_C03 (cfg : config) (f : bytes) (r : option bytes) : bool :=
             else bytes_eqb (di_src i) (v_dst v)) &&
            (if v_proto v =? 6 then
               match dec_tcp (di_payload i) with
-              | Some t => ports_ok (u16_at 0 (v_l4 v)) (u16_at 2 (v_l4 v)) (tcp_payload (v_l4 v))
-                                   (dt_sport t) (dt_dport t) (dt_payload t)
+              | Some t =>
+                if strict
+                then ports_ok (u16_at 0 (v_l4 v)) (u16_at 2 (v_l4 v)) (tcp_payload (v_l4 v))
+                              (dt_sport t) (dt_dport t) (dt_payload t)
+                else ports_ok_tcp (u16_at 0 (v_l4 v)) (u16_at 2 (v_l4 v))
+                                  (dt_sport t) (dt_dport t) (dt_payload t)
               | None => false
               end
             else if v_proto v =? 17 then
@@ -67,3 +83,6 @@ Definition ok_C03 (cfg : config) (f : bytes) (r : option bytes) : bool :=
          end)
     end
   end.
+
+Definition ok_C03 : config -> bytes -> option bytes -> bool := ok_C03_gen false.
+Definition ok_C03_strict : config -> bytes -> option bytes -> bool := ok_C03_gen true.
